@@ -41,6 +41,22 @@ def main():
     sys.path.insert(0, __file__.rsplit('/', 2)[0])
     from verifsim.netlist import build
     job = json.load(sys.stdin)
+    if job.get('blif') is not None:
+        # a design that comes out of the BLIF importer: Verilog text and the trace of every wire
+        import pyrtl
+        pyrtl.reset_working_block()
+        pyrtl.input_from_blif(job['blif'], merge_io_vectors=job.get('merge', True), top_model='top')
+        blk = pyrtl.working_block()
+        buf = io.StringIO()
+        pyrtl.output_to_verilog(buf, block=blk)
+        sim = pyrtl.Simulation(tracer=pyrtl.SimulationTrace('all', block=blk), block=blk)
+        ins = sorted((w.name, w.bitwidth) for w in blk.wirevector_subset(pyrtl.Input))
+        for c in range(4):
+            sim.step({n: (c * 7 + 3 + i) & ((1 << bw) - 1) for i, (n, bw) in enumerate(ins)})
+        json.dump({'verilog': buf.getvalue(),
+                   'trace': json.dumps({k: list(v) for k, v in sorted(sim.tracer.trace.items())})},
+                  sys.stdout)
+        return
     rng = random.Random(job.get('noise_seed', 0))
     junk = [object() for _ in range(rng.randrange(0, 5000))]
     keep = [[0] * rng.randrange(1, 50) for _ in range(rng.randrange(0, 300))]
